@@ -19,7 +19,7 @@ KINDS = ["encode", "slice", "ufunc2", "unary", "scalar", "concat"]
 FLOOR_TAGS = ["k:" + k for k in KINDS] + ["style:" + s for s in rl.STYLES] + ["kind:b", "kind:i", "kind:u", "kind:f", "dt:float16", "v:nonfinite", "slice:stepped", "slice:unit",
                                                                               "adjacent-inf", "adjacent-nan"]
 FLOOR_MONITORS = ["c14:roundtrip", "c14:canonical", "c14:joined", "inv:rla"]
-N_RANDOM = {"quick": 10000, "thorough": 400000}
+N_RANDOM = {"quick": 30000, "thorough": 400000}
 UF2 = ["add", "subtract", "multiply", "maximum", "minimum", "equal", "less", "logical_or", "logical_and", "bitwise_xor", "not_equal"]
 
 
